@@ -74,7 +74,7 @@ theorem C08_adjoint_reverses_products (c : Ctx) (hl : FermionsLast c) (x y : For
   adjoint_mul c hl x y s s'' hx hy hs hs''
 
 /-- **C08** conversion: the form obtained from an operator expression has the kernel of the expression's own Fock action
-(composition of the generator actions, no normal ordering involved) -/
+(composition of the generator actions, no normal ordering involved); expressions include arbitrary functions of the number operators -/
 theorem C08_from_expr_roundtrip (c : Ctx) (hl : FermionsLast c) (e : OpExpr) (he : OpExpr.wf c e = true) (s s'' : Occ)
     (hs : Valid c s) : ampF' c (fromExpr c e) s s'' = ker (actE c e s) s'' :=
   roundtrip c hl e he s s'' hs
@@ -94,6 +94,13 @@ theorem C08_driver_action (c : Ctx) (t : Term) (s : Occ) : specX c t s = (tgt t 
 example : ampF' c2 (fromExpr c2 e0) [2, 1] [2, 1] = ker (actE c2 e0 [2, 1]) [2, 1] :=
   C08_from_expr_roundtrip c2 c2_last e0 rfl _ _ c2_valid
 example : ker (actE c2 e0 [2, 1]) [2, 1] = ofInt 2 := by decide +kernel
+
+/-! functions of number operators are expressions too (`OpExpr.fn`): `a · 2^N` on boson ⊗ fermion sends `|2,1)` to `2·2^2 |1,1)` — the shifted function
+`2^(N+1)·a` of the number-ordered form, not `2^N·a` (defect D29 of the real `from_expr`) -/
+def pow2N : Occ → GRat := fun N => ofInt (2 ^ (Occ.get N 0).toNat)
+example : ampF' c2 (fromExpr c2 (.mul (.gen 0 false) (.fn pow2N))) [2, 1] [1, 1] = ker (actE c2 (.mul (.gen 0 false) (.fn pow2N)) [2, 1]) [1, 1] :=
+  C08_from_expr_roundtrip c2 c2_last _ rfl _ _ c2_valid
+example : ker (actE c2 (.mul (.gen 0 false) (.fn pow2N)) [2, 1]) [1, 1] = ofInt 8 := by decide +kernel
 
 end Props
 end Pyma
